@@ -619,14 +619,17 @@ func cmdRun(args []string) int {
 		"violations": nviol,
 	}
 	eb, _ := json.MarshalIndent(ev, "", " ")
-	os.MkdirAll(filepath.Join(verifDir, "evidence"), 0o755)
+	// VERIF_EVIDENCE_DIR: runs against a changed scratch copy (tools/try_mutant.sh) must not overwrite the
+	// evidence of the tree under check.
+	evDir := envOr("VERIF_EVIDENCE_DIR", filepath.Join(verifDir, "evidence"))
+	os.MkdirAll(evDir, 0o755)
 	if id != "SELF" {
-		if err := os.WriteFile(filepath.Join(verifDir, "evidence", id+".json"), eb, 0o644); err != nil {
+		if err := os.WriteFile(filepath.Join(evDir, id+".json"), eb, 0o644); err != nil {
 			fatal("%v", err)
 		}
 		// a copy per tier, so that the record of the last thorough run survives later quick runs
-		os.MkdirAll(filepath.Join(verifDir, "evidence", tier), 0o755)
-		os.WriteFile(filepath.Join(verifDir, "evidence", tier, id+".json"), eb, 0o644)
+		os.MkdirAll(filepath.Join(evDir, tier), 0o755)
+		os.WriteFile(filepath.Join(evDir, tier, id+".json"), eb, 0o644)
 	}
 	fmt.Printf("%s tier=%s scenarios=%d executions=%d states=%d transitions=%d enumerated=%d distinct_nontrivial=%d exhaustive=%v violations=%d known=%d wall=%.1fs\n",
 		id, tier, tot.Scenarios, tot.Execs, tot.States, tot.Transitions, tot.Evaluations, tot.Distinct, exhaustive, nviol, len(knownPrinted), time.Since(t0).Seconds())
